@@ -512,6 +512,32 @@ class _SigOp(_Backend):
         return d
 
 
+@register
+class SigStr(_Backend):
+    """str(Sig): the text that goes into the equation file, `c1 w1 c2 w2 ...` with the coefficients in decimal; parsing it
+    back gives the same (coefficient, wire) pairs.  (Concrete coefficients: text cannot be symbolic.)"""
+    name = QAP + ":Sig.__str__"
+    module = QAP
+    vprops = ("C13", "C12")          # C12 names the textual linear combinations as its first mechanism
+    fprops = ("C13", "C12")
+    SIGS = [[], [(1, "main/1")], [(3, "main/1"), (BN254_R - 1, "main/2"), (0, "f_1_g/onex")], [(2, "a/1"), (2, "a/1")]]
+
+    def configs(self, tier):
+        return [dict(idx=i) for i in range(len(self.SIGS))]
+
+    def setup(self, c, cfg):
+        m = self.mod(c)
+        return m.Sig.__str__, (m.Sig(list(self.SIGS[cfg["idx"]])),), {}
+
+    def post(self, c, r, s):
+        want = self.SIGS[c.cfg["idx"]]
+        ok = isinstance(r, str)
+        toks = r.split() if ok else []
+        back = [(int(toks[i]), toks[i + 1]) for i in range(0, len(toks) - 1, 2)] if ok and len(toks) % 2 == 0 and all(
+            t.lstrip("-").isdigit() for t in toks[0::2]) else None
+        return {"V.is_text": ok, "V.parses_back_to_the_same_pairs": back == want, "F.operand_unchanged": list(s.sig) == want}
+
+
 def _sig_replay(self, ob, cfg):
     if cfg.get("shape") != "concrete":
         return dict(confirmed=False, note="arbitrary-sequence configuration: no concrete operands to replay")
@@ -520,6 +546,7 @@ def _sig_replay(self, ob, cfg):
 
 
 _SigOp.native_replay = _sig_replay
+SigStr.native_replay = lambda self, ob, cfg: __import__("contracts.qaptools_c", fromlist=["_qap_replay"])._qap_replay(self, ob, cfg, kind="qap")
 
 for _op in ("__add__", "__sub__", "__mul__", "__neg__"):
     register(type("Sig" + _op.strip("_").title(), (_SigOp,), dict(name="%s:Sig.%s" % (QAP, _op), op=_op)))
